@@ -24,7 +24,8 @@ CONSTANTS Kinds,        \* sequence of request kinds, one per caller: "pub1" | "
           SendSet,      \* the <<ack kind, id>> pairs the broker may send (all of them in the exhaustive instances)
           BugKindOnly,  \* reader picks any waiter of the acknowledgement's kind (ignores the identifier)
           BugIdOnly,    \* reader ignores the kind
-          BugNoDelete   \* reader does not remove the waiter entry
+          BugNoDelete,  \* reader does not remove the waiter entry
+          AllowAbandon  \* callers may give up (context deadline) while they wait
 
 N == Len(Kinds)
 Callers == 1..N
@@ -33,7 +34,7 @@ AckKinds == {"PUBACK", "PUBREC", "PUBCOMP", "SUBACK", "UNSUBACK"}
 AllIds == Callers \cup ForeignIds
 FirstAck(c) == CASE Kinds[c] = "pub1" -> "PUBACK" [] Kinds[c] = "pub2" -> "PUBREC" [] Kinds[c] = "sub" -> "SUBACK" [] OTHER -> "UNSUBACK"
 
-VARIABLES pc,      \* per caller: "start" | "written" | "relwritten" | "done"
+VARIABLES pc,      \* per caller: "start" | "written" | "relwritten" | "done" | "abandoned"
           w,       \* waiter maps: [ack kind -> [id -> "absent" | "waiting" | "filled"]]
           sent,    \* set of <<ack kind, id, n>> the broker has sent (n: how many sends before it)
           hist,    \* sequence of [k, id] in sending order
@@ -69,6 +70,13 @@ Wake2(c) ==
   /\ pc' = [pc EXCEPT ![c] = "done"]
   /\ UNCHANGED <<sent, hist>>
 
+\* the caller's context ends while it waits: the call returns with that error.  Its waiter entry STAYS in the map
+\* (the code does not remove it); an acknowledgement that comes later fills a channel nobody reads.
+Abandon(c) ==
+  /\ AllowAbandon /\ pc[c] \in {"written", "relwritten"}
+  /\ pc' = [pc EXCEPT ![c] = "abandoned"]
+  /\ UNCHANGED <<w, sent, hist, got>>
+
 \* the broker sends an acknowledgement and the reader dispatches it (serve.go)
 Waiting(k) == {i \in AllIds : w[k][i] = "waiting"}
 Target(k, id) ==      \* which waiter entry the reader fills: <<kind, id>> or none
@@ -83,7 +91,7 @@ Send(k, id) ==
      w' = IF t[1] = "none" THEN w ELSE [w EXCEPT ![t[1]][t[2]] = "filled"]
   /\ UNCHANGED <<pc, got>>
 
-Next == (\E c \in Callers : Request(c) \/ Wake1(c) \/ Wake2(c)) \/ (\E p \in SendSet : Send(p[1], p[2]))
+Next == (\E c \in Callers : Request(c) \/ Wake1(c) \/ Wake2(c) \/ Abandon(c)) \/ (\E p \in SendSet : Send(p[1], p[2]))
 AllSends == AckKinds \X AllIds
 Spec == Init /\ [][Next]_vars /\ WF_vars(\E c \in Callers : Request(c) \/ Wake1(c) \/ Wake2(c))
 
@@ -96,6 +104,9 @@ DoneNeedsAllAcks == \A c \in Callers : pc[c] = "done" =>
 \* acknowledgements for other identifiers / of other kinds never touch a waiter
 ForeignHarmless == [][\A k \in AckKinds, i \in AllIds :
                         (w[k][i] = "waiting" /\ w'[k][i] = "filled") => (Len(hist') > Len(hist) /\ hist'[Len(hist')] = [k |-> k, id |-> i])]_vars
-\* an acknowledgement that arrives while its waiter is registered completes the call (under fairness)
-OwnAckCompletes == \A c \in Callers : (w[FirstAck(c)][IdOf(c)] = "filled") ~> (FirstAck(c) \in got[c])
+\* an acknowledgement that arrives while its waiter is registered completes the call (under fairness), unless the
+\* caller has given up
+OwnAckCompletes == \A c \in Callers : (w[FirstAck(c)][IdOf(c)] = "filled" /\ pc[c] # "abandoned") ~> (FirstAck(c) \in got[c] \/ pc[c] = "abandoned")
+\* a request that was given up stays given up and never reports success afterwards, whatever arrives later
+AbandonedIsFinal == [][\A c \in Callers : pc[c] = "abandoned" => (pc'[c] = "abandoned" /\ got'[c] = got[c])]_vars
 =============================================================================
